@@ -123,7 +123,24 @@ def process(rec, payload, workdir, idx):
         o = outcome(lambda: pm._evaluate(Py.LAGS))
         if o[0] == 'exc' or not all(np.all(np.isfinite(v)) for v in state(pm).values() if v.dtype.kind == 'f'):
             return 0
-        raise Mis('fortran-source-does-not-compile', script=script, error=str(e)[-600:])
+        key = 'fortran-source-does-not-compile'
+        if 'Raising a negative REAL' in str(e):
+            # gfortran folds constants: a negative literal raised to a REAL power is rejected at compile time.  An integer
+            # literal exponent stays an integer in the generated source (never this error); an exponent that is computed
+            # ((-2) ** (2 * 2)) becomes a REAL expression
+            def literal_exponents(tr):
+                if not isinstance(tr, tuple):
+                    return True
+                if tr[0] == 'bin' and tr[1] == '**':
+                    ex = tr[3]
+                    while isinstance(ex, tuple) and ex[0] in ('paren', 'neg'):
+                        ex = ex[1]
+                    if not (isinstance(ex, tuple) and ex[0] == 'num' and str(ex[1]).isdigit()):
+                        return False
+                return all(literal_exponents(x) for x in tr[1:] if isinstance(x, tuple))
+            lit = all(literal_exponents(R.to_tree(s_['rhs'])) for s_ in rec['stmts'])
+            key += ':negative-constant-base:' + ('integer-literal-exponent' if lit else 'computed-exponent')
+        raise Mis(key, script=script, error=str(e)[-600:])
 
     class F(FortranEngine, Py):
         ENGINE = engine
